@@ -27,33 +27,46 @@ Inputs == {T \in SUBSET Words : T # {} /\ Cardinality(T) <= MaxSize}
 
 Cfgs == {[DefaultCfg EXCEPT !.nostart = a, !.noend = b] : a, b \in BOOLEAN}
 
-VARIABLES pc, T, cfg, tcs, trie, min, e1, final, out
-vars == <<pc, T, cfg, tcs, trie, min, e1, final, out>>
+VARIABLES pc, T, cfg, tcs, trie, min, e1, final, out,
+          ord, A, B, n      \* state elimination: DFS order, equation system, next state to eliminate
+vars == <<pc, T, cfg, tcs, trie, min, e1, final, out, ord, A, B, n>>
+elim == <<ord, A, B, n>>
 
 NoG == [n |-> 1, es |-> <<>>, fin |-> {}, init |-> 0]
 Init == /\ pc = "input" /\ T = {} /\ cfg = DefaultCfg /\ tcs = <<>>
         /\ trie = NoG /\ min = NoG /\ e1 = XNone /\ final = XNone /\ out = ""
+        /\ ord = <<>> /\ A = <<>> /\ B = <<>> /\ n = 0
 
 DoChoose == /\ pc = "input"
           /\ \E t \in Inputs, c \in Cfgs : T' = t /\ cfg' = c
-          /\ pc' = "sort" /\ UNCHANGED <<tcs, trie, min, e1, final, out>>
+          /\ pc' = "sort" /\ UNCHANGED <<tcs, trie, min, e1, final, out, elim>>
 DoSort == /\ pc = "sort" /\ tcs' = SortTcs(T)
-        /\ pc' = "trie" /\ UNCHANGED <<T, cfg, trie, min, e1, final, out>>
+        /\ pc' = "trie" /\ UNCHANGED <<T, cfg, trie, min, e1, final, out, elim>>
 DoTrie == /\ pc = "trie"
         /\ trie' = [BuildTrie([i \in DOMAIN tcs |-> PlainCluster(tcs[i])], Dev) EXCEPT !.fin = @] @@ [init |-> 0]
-        /\ pc' = "min" /\ UNCHANGED <<T, cfg, tcs, min, e1, final, out>>
+        /\ pc' = "min" /\ UNCHANGED <<T, cfg, tcs, min, e1, final, out, elim>>
 DoMin == /\ pc = "min" /\ min' = Minimize(trie, Dev)
-       /\ pc' = "elim" /\ UNCHANGED <<T, cfg, tcs, trie, e1, final, out>>
-DoEliminate == /\ pc = "elim" /\ e1' = ToExpr(min, min.init)
-             /\ pc' = "check" /\ UNCHANGED <<T, cfg, tcs, trie, min, final, out>>
+         /\ pc' = "elim-init" /\ UNCHANGED <<T, cfg, tcs, trie, e1, final, out, elim>>
+(* S9 one action per eliminated state *)
+DoElimInit == /\ pc = "elim-init"
+              /\ ord' = DfsOrder(min, min.init)
+              /\ A' = InitA(min, ord') /\ B' = InitB(min, ord') /\ n' = Len(ord')
+              /\ pc' = "elim" /\ UNCHANGED <<T, cfg, tcs, trie, min, e1, final, out>>
+DoElimStep == /\ pc = "elim" /\ n > 0
+              /\ LET r == ElimOne(A, B, n) IN A' = r.A /\ B' = r.B
+              /\ n' = n - 1
+              /\ UNCHANGED <<pc, T, cfg, tcs, trie, min, e1, final, out, ord>>
+DoEliminate == /\ pc = "elim" /\ n = 0
+               /\ e1' = (IF XIsNone(B[1]) THEN XLit(<<>>) ELSE B[1])
+               /\ pc' = "check" /\ UNCHANGED <<T, cfg, tcs, trie, min, final, out, elim>>
 DoCheck == /\ pc = "check"
          /\ final' = (IF ~cfg.noend \/ WholeFound(e1, tcs) THEN e1
                       ELSE LET e2 == ToExpr(trie, 0) IN
                            IF WholeFound(e2, tcs) THEN e2 ELSE FallbackAlt(tcs))
-         /\ pc' = "print" /\ UNCHANGED <<T, cfg, tcs, trie, min, e1, out>>
+         /\ pc' = "print" /\ UNCHANGED <<T, cfg, tcs, trie, min, e1, out, elim>>
 DoPrint == /\ pc = "print" /\ out' = PrintRegex(final, cfg)
-         /\ pc' = "done" /\ UNCHANGED <<T, cfg, tcs, trie, min, e1, final>>
-Next == DoChoose \/ DoSort \/ DoTrie \/ DoMin \/ DoEliminate \/ DoCheck \/ DoPrint
+         /\ pc' = "done" /\ UNCHANGED <<T, cfg, tcs, trie, min, e1, final, elim>>
+Next == DoChoose \/ DoSort \/ DoTrie \/ DoMin \/ DoElimInit \/ DoElimStep \/ DoEliminate \/ DoCheck \/ DoPrint
 Spec == Init /\ [][Next]_vars
 
 (***************************************************************************)
@@ -64,16 +77,22 @@ ModEps(L) == IF DevFinals THEN L \ {<<>>} ELSE L
 TrieG == AsGraph(trie, 0)
 MinG == AsGraph(min, min.init)
 
-SortInv == After({"trie", "min", "elim", "check", "print", "done"}) =>
+SortInv == After({"trie", "min", "elim-init", "elim", "check", "print", "done"}) =>
              /\ ToSet(tcs) = T /\ Len(tcs) = Cardinality(T)
              /\ \A i \in 1 .. Len(tcs) - 1 : TcLess(tcs[i], tcs[i + 1])
-TrieInv == After({"min", "elim", "check", "print", "done"}) =>
+TrieInv == After({"min", "elim-init", "elim", "check", "print", "done"}) =>
              Acyclic(TrieG) /\ GraphLang(TrieG) = T
-MinInv == After({"elim", "check", "print", "done"}) =>
+MinInv == After({"elim-init", "elim", "check", "print", "done"}) =>
              /\ Acyclic(MinG)
              /\ ModEps(GraphLang(MinG)) = ModEps(T)
              /\ (DevFinals \/ GraphLang(MinG) = T)
              /\ DeterministicSym(MinG) /\ MinimalSym(MinG) /\ MinimalSymByLang(MinG)
+(* Arden's system stays equivalent while states are eliminated: for every surviving row i <= n the    *)
+(* right language of state ord[i] is  B[i] + sum over j <= n of A[i][j] . RightLang(ord[j])          *)
+ElimStepInv == pc = "elim" =>
+  \A i \in 1 .. n :
+     RightLang(MinG, ord[i]) =
+        XLang(B[i]) \cup UNION {ConcatL(XLang(A[i][j]), RightLang(MinG, ord[j])) : j \in 1 .. n}
 ElimInv == After({"check", "print", "done"}) =>
              ModEps(LangOf(XToLang(e1))) = ModEps(GraphLang(MinG))
 FinalInv == After({"print", "done"}) =>
